@@ -181,9 +181,11 @@ def r2_r3_spectrum(repo: Repo, rep):
             if name == "pad":
                 continue
             if name == "Mult" or name in ("mul", "multiply"):
-                if "self.fourier_kernel" in o:
+                inner = o[len(name) + 1:-1] if len(o) > len(name) + 1 and o[-1] in ")]" else o[len(name) + 1:]
+                if inner.replace(" ", "") in ("self.fourier_kernel", "fft,self.fourier_kernel", "self.fourier_kernel,fft") or ("self.fourier_kernel" in o and not any(
+                        k in inner for k in ("index_select", "roll", "flip", "gather", "take", "[", "permute", "transpose", "repeat", "interpolate", "round", "clamp"))):
                     continue
-                bad.append(o)
+                bad.append(o if "self.fourier_kernel" not in o else "Mult(kernel re-indexed / resampled: " + inner[:60] + ")")
                 continue
             if name == "slice":
                 continue
@@ -353,17 +355,22 @@ def r4_fno_structure(repo: Repo, rep):
             rep.check(R, okl, init.site(), init.fq, "default channel maps are nn.Linear(in, hidden) / nn.Linear(hidden, out)", f"{dump(up)[:80]} / {dump(down)[:80]}", "channel map defaults")
         if not any(pol and dump(g).startswith("range(") for g, pol, k in p.guards):
             continue
-        oks = isinstance(seq, ast.Call) and attr_chain(seq.func) in ("nn.Sequential", "torch.nn.Sequential") and len(seq.args) == 1 and isinstance(seq.args[0], ast.Starred) \
-            and isinstance(seq.args[0].value, ast.List) and seq.args[0].value.elts
+        blocks = None
+        if isinstance(seq, ast.Call) and attr_chain(seq.func) in ("nn.Sequential", "torch.nn.Sequential") and seq.args:
+            if len(seq.args) == 1 and isinstance(seq.args[0], ast.Starred) and isinstance(seq.args[0].value, (ast.List, ast.Tuple)):
+                blocks = list(seq.args[0].value.elts)
+            elif not any(isinstance(a, ast.Starred) for a in seq.args):
+                blocks = list(seq.args)  # the canonical form of Sequential(*[a, b]) is Sequential(a, b)
+        oks = bool(blocks)
         if oks:
-            for el in seq.args[0].value.elts:
+            for el in blocks:
                 if isinstance(el, ast.Call) and dump(el.func) == "_FourierLayer":
                     oks = oks and bool(el.args) and dump(el.args[0]) == hid
                 elif isinstance(el, ast.Subscript) and "activations" in dump(el.value):
                     pass
                 else:
                     oks = False
-            oks = oks and any(isinstance(el, ast.Call) and dump(el.func) == "_FourierLayer" for el in seq.args[0].value.elts)
+            oks = oks and any(isinstance(el, ast.Call) and dump(el.func) == "_FourierLayer" for el in blocks)
         rep.check(R, bool(oks), init.site(), init.fq, "the blocks are _FourierLayer(hidden_channels, ...) and point-wise activations in an nn.Sequential", dump(seq)[:160], "blocks")
     if npaths == 0:
         rep.undecided(R, init.site(), init.fq, "a constructor path taking both default channel maps", "none found")
